@@ -111,4 +111,22 @@ def crashImage (trace : List WOp) (full : SigStore) (n : Nat) : FileImage :=
   else if done.contains .createFile then .unopenable
   else .notHdf5
 
+/-- File image if the writer is *interrupted by an exception* raised immediately before its `n`-th call
+(Ctrl-C, a termination handler raising `SystemExit`, a failing signature source, a full disk): the
+`with` block closes the half-written file — which would make it a readable HDF5 file with the marker and
+zero-filled datasets — and `dump_signatures_hdf5` (since the repair `fix: … partially written`) removes it
+before re-raising.  No file at the path is `notHdf5` for the loader (it raises).  An exception before the
+file was created (`n = 0`) leaves whatever was at the path before, which is not a partial file and is not
+modelled here; one after the last call finds the complete, closed file. -/
+def unwindImage (trace : List WOp) (full : SigStore) (n : Nat) : FileImage :=
+  if trace.length ≤ n then .hdf5 full else .notHdf5
+
+/-- Pre-repair behaviour, kept as the witness of finding C19-F1: the store that `close` finalised when
+the per-signature writer was interrupted by an exception after `j` of its signatures had been copied —
+attributes, ids and bounds complete, the rest of `values` still zero. -/
+def interruptedStoreSlow (c : SigCollection) (j : Nat) : SigStore :=
+  let full := writeSigs false c
+  let upto := full.bounds.getD j 0
+  { full with values := full.values.take upto ++ List.replicate (full.values.length - upto) 0 }
+
 end GambitV
